@@ -228,8 +228,12 @@ func encode(ctx *encoder.RuntimeContext, v interface{}) ([]byte, error) {
 		return nil, err
 	}
 
-	p := rootPointer(ctx, codeSet, header.ptr)
+	p, box := rootPointer(codeSet, header.ptr)
 	ctx.Init(p, codeSet.CodeLength)
+	if box != nil {
+		// after Init, which empties KeepRefs: the copy of the word stays alive while the program runs
+		ctx.KeepRefs = append(ctx.KeepRefs, box)
+	}
 	ctx.KeepRefs = append(ctx.KeepRefs, header.ptr)
 
 	buf, err := encodeRunCode(ctx, b, codeSet)
@@ -256,8 +260,12 @@ func encodeNoEscape(ctx *encoder.RuntimeContext, v interface{}) ([]byte, error) 
 		return nil, err
 	}
 
-	p := rootPointer(ctx, codeSet, header.ptr)
+	p, box := rootPointer(codeSet, header.ptr)
 	ctx.Init(p, codeSet.CodeLength)
+	if box != nil {
+		// after Init, which empties KeepRefs: the copy of the word stays alive while the program runs
+		ctx.KeepRefs = append(ctx.KeepRefs, box)
+	}
 	buf, err := encodeRunCode(ctx, b, codeSet)
 	if err != nil {
 		return nil, err
@@ -283,8 +291,12 @@ func encodeIndent(ctx *encoder.RuntimeContext, v interface{}, prefix, indent str
 		return nil, err
 	}
 
-	p := rootPointer(ctx, codeSet, header.ptr)
+	p, box := rootPointer(codeSet, header.ptr)
 	ctx.Init(p, codeSet.CodeLength)
+	if box != nil {
+		// after Init, which empties KeepRefs: the copy of the word stays alive while the program runs
+		ctx.KeepRefs = append(ctx.KeepRefs, box)
+	}
 	buf, err := encodeRunIndentCode(ctx, b, codeSet, prefix, indent)
 
 	ctx.KeepRefs = append(ctx.KeepRefs, header.ptr)
@@ -299,15 +311,15 @@ func encodeIndent(ctx *encoder.RuntimeContext, v interface{}, prefix, indent str
 
 // rootPointer returns what the program of the root value is started with: the interface word, or,
 // for a value whose program addresses memory although the value is the word itself ( a one-element
-// array of pointers ), the address of a copy of the word.
-func rootPointer(ctx *encoder.RuntimeContext, codeSet *encoder.OpcodeSet, ptr unsafe.Pointer) uintptr {
+// array of pointers ), the address of a copy of the word. The copy is returned as well: the caller
+// keeps it in ctx.KeepRefs while the program runs, which knows it only as a uintptr.
+func rootPointer(codeSet *encoder.OpcodeSet, ptr unsafe.Pointer) (uintptr, unsafe.Pointer) {
 	if !codeSet.BoxedValue {
-		return uintptr(ptr)
+		return uintptr(ptr), nil
 	}
 	box := new(unsafe.Pointer)
 	*box = ptr
-	ctx.KeepRefs = append(ctx.KeepRefs, unsafe.Pointer(box))
-	return uintptr(unsafe.Pointer(box))
+	return uintptr(unsafe.Pointer(box)), unsafe.Pointer(box)
 }
 
 func encodeRunCode(ctx *encoder.RuntimeContext, b []byte, codeSet *encoder.OpcodeSet) ([]byte, error) {
